@@ -46,6 +46,7 @@ BadNames(exp, obs, skipT) ==
 Accept(tr, tabs, ev) ==
     \/ ev.op.view = "update"
     \/ /\ ev.exc = ""
+       /\ ev.rawsame          \* the recorder found the result's stored frames and parameter snapshots untouched
        /\ SameAns(ViewT(OpOf(ev), ResOf(tr, ev), tabs), ev.ans, ev.op.view = "newy0")
 
 Verdict(tr) ==
